@@ -9,10 +9,11 @@
    contract and is not claimed here.
 
    `wf_histb cfg (init t0) hist = true` states what the environment guarantees at every executed iteration: the key
-   order is a permutation of the table's keys, a broadcast visits exactly the streams in the table, and the peer
-   addresses of the streams admitted in an iteration are distinct and not in the table (one live TCP connection per peer
-   address). `proj a ds` is the subsequence of dispatches that concern address `a` (EC connect, EM m message, ED
-   disconnect). *)
+   order is a permutation of the table's keys and a broadcast visits exactly the streams in the table (HashMap
+   iteration). Nothing is assumed about peer addresses: a stream admitted under an address that is still in the table
+   (a connection whose end went unnoticed, address reused) first disconnects the stale stream — that is the repaired code
+   (c80fbf4); the code before the repair is `run_old` (C12_readmission_refuted, C12_old_code_partial).
+   `proj a ds` is the subsequence of dispatches that concern address `a` (EC connect, EM m message, ED disconnect). *)
 From Hv Require Import Prelude AsyncApp AsyncAppProofs.
 
 (* The dispatches for every address follow the session discipline (Connect Message* Disconnect)* (Connect Message* )?,
@@ -115,15 +116,23 @@ Theorem C12_heartbeat_timeout :
     (N.lt (pa_clock p - lp') to -> visit cfg wp per m a = VGo (insert a lp' m) ds (if wp then [WPing a] else [])).
 Proof. exact heartbeat_visit. Qed.
 
-(* Without the environment assumption the session discipline fails: two streams with the same peer address admitted in
-   one iteration (the first connection was reset and its address reused before the loop looked at it) get two Connects and
-   the first one never gets a Disconnect — HashMap::insert silently replaces it. *)
+(* The code before the repair: a stream whose end went unnoticed (its reads keep saying "nothing yet") stays in the
+   table; when its peer address is reused, HashMap::insert replaced it silently — the connect handler ran twice for the
+   address and the first connection never got its Disconnect. Same history, repaired code: Disconnect, then Connect. *)
 Theorem C12_readmission_refuted :
   exists (cfg : config) (hist : list inputs) (a : addr),
-    wf_histb cfg (init 0) hist = false /\
-    t_disp (run cfg (init 0) hist) = [Connect a; Connect a] /\
-    sessions false (proj a (t_disp (run cfg (init 0) hist))) = None.
+    wf_histb cfg (init 0) hist = true /\
+    t_disp (run_old cfg (init 0) hist) = [Connect a; Message a 1%N; Connect a; Message a 2%N] /\
+    sessions false (proj a (t_disp (run_old cfg (init 0) hist))) = None /\
+    t_disp (run cfg (init 0) hist) = [Connect a; Message a 1%N; Disconnect a; Connect a; Message a 2%N].
 Proof. exact thm_readmission_refuted. Qed.
+
+(* ... and it behaved like the repaired code on every history in which the admitted addresses are distinct and not in the
+   table, so all theorems above held for it on those histories. *)
+Theorem C12_old_code_partial :
+  forall (cfg : config) (hist : list inputs) (st : app_state),
+    fresh_histb cfg st hist = true -> run_old cfg st hist = run cfg st hist.
+Proof. exact run_old_fresh. Qed.
 
 (* A receive call that does not return (first frame of a fragmented message received, the rest never sent) keeps the
    loop inside that iteration: a shutdown flag raised afterwards is not acted upon. *)
@@ -155,5 +164,6 @@ Print Assumptions C12_exit_only_on_signal.
 Print Assumptions C12_not_stuck_unless_receive_blocks.
 Print Assumptions C12_heartbeat_timeout.
 Print Assumptions C12_readmission_refuted.
+Print Assumptions C12_old_code_partial.
 Print Assumptions C12_blocked_receive_refuted.
 Print Assumptions C12_demo.
